@@ -24,7 +24,7 @@ def stpOut (regs : Array Region) (errpos : Nat) (p : Prog (Nat × Nat)) : Prog O
   let (ptr, err) ← p
   pure { ret := showPtr regs ptr, outs := [(errpos, toString err)] }
 
-def dispatch (fn : String) (c : Ctx) : Option (Prog Out) :=
+def dispatchCore (fn : String) (c : Ctx) : Option (Prog Out) :=
   match fn with
   | "strcpy_s" => do
     let d ← c.p 0; let m ← c.n 1; let s ← c.p 2; let b ← c.b 3
